@@ -3,6 +3,7 @@ import Model.Ingress
 import Proofs.Lemmas.Ingress
 import Proofs.C16
 import Proofs.C01
+import Proofs.C11
 /-!
 # C02 — an edge acknowledges a message only after custody of every recipient is taken
 
@@ -369,6 +370,68 @@ example : ∃ q, ReachT true (QM.start [] (fun _ => []) (fun _ => true)) (labels
   simpa using this
 
 end composed
+
+/-! ## Edge → ProxyQueue → SMTP relay → next hop (C02 ∘ C11) -/
+section proxyhop
+open Slimta.Ingress Slimta.Relay
+
+theorem zipIdx_all_none {l : List Cls} {code : Nat → Cls → Nat}
+    (h : ∀ x ∈ l.zipIdx.map (fun (c, i) => match c with | Cls.ok => (none : Option Nat) | c => some (code i c)), x = none) :
+    ∀ c ∈ l, c = .ok := by
+  intro c hc
+  obtain ⟨i, hi, rfl⟩ := List.getElem_of_mem hc
+  have hm : (l[i], i) ∈ l.zipIdx := by
+    rw [List.mem_zipIdx_iff_getElem?]; simp [hi]
+  have := h _ (List.mem_map_of_mem hm)
+  cases hci : l[i] with
+  | ok => rfl
+  | perm => simp [hci] at this
+  | temp => simp [hci] at this
+
+/-- **A proxied message is acknowledged only if the next hop took it for everybody**: for every behaviour of the next hop, every
+    relay configuration and whatever codes the relay's error objects carry (4xx / 5xx) — if the client of the SMTP edge gets a 2xx, or
+    the client of the HTTP edge a 2xx status, the connection was made, the handshake completed, and the next hop gave non-error
+    replies to MAIL, to the RCPT of every recipient, to DATA and to the message data. -/
+theorem proxy_hop_ack_means_next_hop_accepted (code : Nat → Cls → Nat) (hcode : ∀ i c, ErrCode (code i c))
+    (cfg : Relay.Cfg) (hl : cfg.lmtp = false) (s : Script) (hne : s.rcpts ≠ [])
+    (hack : smtpSees (proxyHop code cfg s) / 100 = 2 ∨ wsgiSees (proxyHop code cfg s) / 100 = 2) :
+    s.connect = .ok ∧ handshake cfg s = none ∧
+    (∃ c, s.eod = .code c ∧ isError c = false) ∧ (∃ c, s.data = .code c ∧ isError c = false) ∧
+    (∃ c, s.mail = .code c ∧ isError c = false) ∧
+    ∀ i, i < s.rcpts.length → ∃ c, s.rcpts[i]? = some (.code c) ∧ isError c = false := by
+  have h := proxy_ack_means_all_delivered (relayOutOf code (attempt cfg s))
+    (by cases hr : attempt cfg s with
+        | table l =>
+          simp only [relayOutOf]
+          intro c hc
+          obtain ⟨⟨cl, i⟩, _, he⟩ := List.mem_map.mp hc
+          cases cl <;> simp at he <;> (rw [← he]; exact hcode _ _)
+        | raised c => exact hcode 0 c) hack
+  cases hr : attempt cfg s with
+  | raised c => rw [hr] at h; simp [relayOutOf] at h
+  | table l =>
+    rw [hr] at h
+    simp only [relayOutOf, reduceCtorEq, RelayOut.perRcpt.injEq, exists_eq_left', false_or] at h
+    have hok := zipIdx_all_none h
+    have hlen := C11.attempt_answers_everyone cfg s l hr
+    have hcls : ∀ i, i < s.rcpts.length → C11.clsOf (attempt cfg s) i = some .ok := by
+      intro i hi
+      rw [hr]
+      have hi' : i < l.length := by omega
+      simp only [C11.clsOf, List.getElem?_eq_getElem hi']
+      rw [hok _ (List.getElem_mem hi')]
+    have hpos : 0 < s.rcpts.length := List.length_pos_iff.mpr hne
+    have h0 := C11.attempt_delivered_only_if_accepted cfg hl s 0 (hcls 0 hpos)
+    refine ⟨h0.1, h0.2.1, h0.2.2.2.1, h0.2.2.2.2.1, h0.2.2.2.2.2, fun i hi => ?_⟩
+    exact (C11.attempt_delivered_only_if_accepted cfg hl s i (hcls i hi)).2.2.1
+
+/-- non-vacuity: the second of two recipients refused with 550 → 550 / 500; everybody accepted → 250 / 204 -/
+example : smtpSees (proxyHop (fun _ c => if c = .perm then 550 else 450) {} { rcpts := [.code 250, .code 550] }) = 550 ∧
+    wsgiSees (proxyHop (fun _ c => if c = .perm then 550 else 450) {} { rcpts := [.code 250, .code 550] }) = 500 ∧
+    smtpSees (proxyHop (fun _ c => if c = .perm then 550 else 450) {} { rcpts := [.code 250, .code 250] }) = 250 ∧
+    wsgiSees (proxyHop (fun _ c => if c = .perm then 550 else 450) {} { rcpts := [.code 250, .code 250] }) = 204 := by decide
+
+end proxyhop
 
 /-! Non-vacuity -/
 example : smtpReply [.id, .queueError none, .id] = 451 ∧ wsgiStatus [.id, .queueError (some 552)] = 500 ∧
